@@ -94,8 +94,8 @@ theorem onRun_stable {I : CS → Prop} (hI : Stable I) (k : CS → Oracle → Li
     (hk : ∀ c' o' out' tmo', I c' → I (k c' o' out' tmo').1) (h : I c) :
     I (onRun k rest c a o out tmo left).1 := by
   unfold onRun; dsimp only
-  have hS := innerLoop_sameFd c.env.now 64 { c.dev with wake := none } a o []
-  generalize innerLoop c.env.now 64 { c.dev with wake := none } a o [] = r at *
+  have hS := innerLoop_sameFd c.env.now (loopBound a) { c.dev with wake := none } a o []
+  generalize innerLoop c.env.now (loopBound a) { c.dev with wake := none } a o [] = r at *
   have hS' : SameFd c.dev r.dev := ⟨hS.fd, hS.conn, hS.cpid, hS.isPipe⟩
   split
   · exact hI.soft c _ ⟨hS'.fd, hS'.conn, hS'.cpid, hS'.isPipe⟩ rfl h
